@@ -149,7 +149,7 @@ func TypeOf(p []Step) (Typing, Kind, map[string]Kind) {
 		if i == 0 && s.Op != "V" && s.Op != "E" {
 			return IllTyped, k, marks
 		}
-		if truncSeen && s.Op != "count" {
+		if truncSeen && (s.Op != "count" || i != len(p)-1) {
 			// which rows survive a truncation is not specified; only the count after it is
 			return Unspecified, k, marks
 		}
